@@ -744,14 +744,14 @@ impl CodegenContext {
                     if emit_if {
                         self.emit_tokens(&if_.inner)?;
                     } else if self.options.enable_greedy_analysis {
-                        self.with_dummy_segment(|s| s.emit_tokens(&if_.inner))?;
+                        self.analyse_unassembled(&if_.inner)?;
                     }
 
                     if let Some(e) = else_ {
                         if !emit_if {
                             self.emit_tokens(&e.inner)?;
                         } else if self.options.enable_greedy_analysis {
-                            self.with_dummy_segment(|s| s.emit_tokens(&e.inner))?;
+                            self.analyse_unassembled(&e.inner)?;
                         }
                     }
                 }
@@ -1338,6 +1338,25 @@ impl CodegenContext {
         result
     }
 
+    /// Generates analysis information for tokens that are not part of the program: a branch that is not taken,
+    /// a macro that is never invoked. Nothing is emitted into an existing segment, and the symbols that these
+    /// tokens define are removed again: they do not exist in what is being assembled, so they must not shadow
+    /// or clash with the program's symbols. Their definitions and usages remain available for navigation.
+    fn analyse_unassembled(&mut self, tokens: &[Token]) -> CoreResult<()> {
+        let existing: HashSet<SymbolIndex> = self.symbols.indices().collect();
+        let result = self.with_dummy_segment(|s| s.emit_tokens(tokens));
+        let added = self
+            .symbols
+            .indices()
+            .filter(|nx| !existing.contains(nx))
+            .collect_vec();
+        for nx in added {
+            self.symbols.remove(nx);
+            self.analysis.detach_symbol(nx);
+        }
+        result
+    }
+
     fn with_scope<F: FnOnce(&mut Self) -> CoreResult<()>>(
         &mut self,
         scope: &Identifier,
@@ -1455,23 +1474,18 @@ impl CodegenContext {
 
         // Do we want to invoke uninvoked macros to generate analysis info?
         if self.options.enable_greedy_analysis {
-            // We don't want to actually emit any tokens into an existing segment, so we'll create a dummy one
-            self.with_dummy_segment(|s| {
-                let mut macro_defs = vec![];
-                for (symbol_nx, symbol) in s.symbols.all().values() {
-                    if let SymbolData::MacroDefinition(def) = &symbol.data {
-                        macro_defs.push((*symbol_nx, def.clone()));
-                    }
+            let mut macro_defs = vec![];
+            for (symbol_nx, symbol) in self.symbols.all().values() {
+                if let SymbolData::MacroDefinition(def) = &symbol.data {
+                    macro_defs.push((*symbol_nx, def.clone()));
                 }
+            }
 
-                for (symbol_nx, def) in macro_defs {
-                    if s.symbol_definition(symbol_nx).is_unused() {
-                        let _ = s.emit_tokens(&def.block);
-                    }
+            for (symbol_nx, def) in macro_defs {
+                if self.symbol_definition(symbol_nx).is_unused() {
+                    let _ = self.analyse_unassembled(&def.block);
                 }
-
-                Ok(())
-            })?;
+            }
         }
 
         Ok(())
